@@ -81,7 +81,8 @@ def gen_cases(ctx):
             if rng.random() < 0.6:
                 rng.choice([t["setUp"], t["body"], t["tearDown"]])["fd2"] = rng.choice(
                     ["caf\xe9 latin-1 noise\n", "\xff\xfe\x00 binary\n", "3 0 0 trailing words\n", "warning\n",
-                     "2026 09 29 12:00:01 worker started\n", "\x80\n"])
+                     "2026 09 29 12:00:01 worker started\n", "\x80\n", "store: entries hits misses 3 0 0\n",
+                     "cache 1 0 0\n"])
         o = {"verbose": rng.choice([0, 1, 2]), "processes": rng.choice([2, 3])}
         cases.append(cw.Case(w, o))
     # children that die
